@@ -1,6 +1,7 @@
 CONSTANTS
   Comp = {"a", "b"}
   MaxDepth = 2
+  OpenFlags = {0, 6, 9, 10, 26, 42}
   BatchMembers <- MCBatch
   MaxTape = 6
   Chunks = {"c1", "c2"}
